@@ -120,6 +120,8 @@ def run(res):
     if not res.violations:
         pthread_campaign(res, 40 if res.tier == "quick" else 400)
     res.notes["once_event_histogram"] = event_histogram()
+    if not res.violations:
+        sched_common.free_stress(res, "C14", "once", [(4, 4, 500, 2), (2, 3, 800, 1), (8, 8, 300, 0), (3, 6, 500, 3), (1, 3, 200, 1)])
     if res.breaks and not res.violations:
         sched_common.search_more(res, "C14", "once_prog", variants(res.seed + 1), 300)
     res.assumptions += [
@@ -162,6 +164,8 @@ def replay_with_seed(pid, path, exe=None):
 
 
 def replay(path):
+    if os.path.isfile(path) and path.endswith("stress.txt") and open(path).readline().startswith("sync_stress_prog"):
+        return sched_common.replay_stress("C14", path)
     args = open(os.path.join(path, "args.txt")).readline().split()
     if args and args[0] == "once_prog_pthread":
         exe, err = build_pthread_variant()
